@@ -196,6 +196,10 @@ def family(tier):
             add(G.single(k, "attr_factory", inherit=inh))
     for r in G.COMPOSITES:
         add(r)
+    # defaults that the attribute's preparer changes: a reset value must equal what a new instance holds
+    add(G.single("words", "mut", preparers=["words"]))
+    add(G.single("words", "mut", item_preparers=["words"]))
+    add(G.single("labels", "mut", item_preparers=["labels"]))
     # init=False attributes: the value lives on the class until an instance gets its own
     for k in (["nums", "leaf", "scores", "kids"] if tier == "quick" else [k for k in kinds if "mut" in G.KINDS[k]]):
         add(G.single(k, "attr_noinit"))
